@@ -38,7 +38,7 @@ PER=$(( (RUNS + JOBS - 1) / JOBS ))
 RC=0
 PIDS=""
 for j in $(seq 1 $JOBS); do
-  "$BIN" -runs=$PER -seed=$((SEED + j)) -max_len=512 -len_control=0 -timeout=20 -rss_limit_mb=4096 -print_final_stats=1 -reload=1 \
+  "$BIN" -runs=$PER -seed=$((SEED + j)) -max_len=512 -len_control=0 -timeout=120 -rss_limit_mb=4096 -print_final_stats=1 -reload=1 \
     -artifact_prefix=$WORK/art/ $WORK/corpus >$WORK/fuzz-$j.log 2>&1 &
   PIDS="$PIDS $!"
 done
